@@ -2,6 +2,7 @@ import Abmarl.Model.Wire
 import Abmarl.Model.MgrDriver
 import Abmarl.Model.GridDriver
 import Abmarl.Model.TrainerDriver
+import Abmarl.Model.BuildersDriver
 /-! Line-protocol driver: one request per line on stdin, one reply per line on stdout. -/
 open Abmarl
 
@@ -13,6 +14,7 @@ def dispatch (line : String) : String :=
       | "mgr" => MgrDriver.handle args
       | "gmove" => GridDriver.handle args
       | "trainer" => TrainerDriver.handle args
+      | "build" => BuildersDriver.handle args
       | "ping" => some (.list (.atom "pong" :: args))
       | _ => none
     match r with
